@@ -299,6 +299,59 @@ func verifH_C09t2(d *verifDesc) {
 	}
 }
 
+// C09f: dirty object = one fully populated value (no extra paths), second decode from arbitrary bytes
+func verifH_C09f(d *verifDesc) {
+	boxed := verifBool()
+	dirty := verifFullObj(d).(verifTL1)
+	b2 := verifBytes(verifBoundTL1(d, boxed))
+	r1, e1 := verifReadTL1(dirty, boxed, b2)
+	fresh := d.newObj().(verifTL1)
+	r2, e2 := verifReadTL1(fresh, boxed, b2)
+	verifAssert((e1 == nil) == (e2 == nil), "same-acceptance")
+	verifAssert(len(r1) == len(r2), "same-remainder")
+	if e1 != nil || e2 != nil {
+		verifCover("reject")
+		return
+	}
+	verifCover("accept")
+	w1, err1 := verifWriteTL1(dirty, boxed)
+	w2, err2 := verifWriteTL1(fresh, boxed)
+	verifAssert(err1 == nil && err2 == nil, "both-write")
+	verifAssert(verifBytesEq(w1, w2), "same-tl1")
+	if d.hasTL2 {
+		verifAssert(verifBytesEq(dirty.(verifTL2).WriteTL2(nil, nil), fresh.(verifTL2).WriteTL2(nil, nil)), "same-tl2")
+	}
+	if d.hasJSON && verifParam("json", 0) != 0 {
+		j1, _ := verifWriteJSON(dirty.(verifJSON))
+		j2, _ := verifWriteJSON(fresh.(verifJSON))
+		verifAssert(verifBytesEq(j1, j2), "same-json")
+	}
+}
+
+func verifH_C09ft2(d *verifDesc) {
+	dirty := verifFullObj(d).(verifTL2)
+	b2 := verifBytes(verifBoundTL2(d))
+	r1, e1 := dirty.ReadTL2(b2, nil)
+	fresh := d.newObj().(verifTL2)
+	r2, e2 := fresh.ReadTL2(b2, nil)
+	verifAssert((e1 == nil) == (e2 == nil), "same-acceptance")
+	verifAssert(len(r1) == len(r2), "same-remainder")
+	if e1 != nil || e2 != nil {
+		verifCover("reject")
+		return
+	}
+	verifCover("accept")
+	verifAssert(verifBytesEq(dirty.WriteTL2(nil, nil), fresh.WriteTL2(nil, nil)), "same-tl2")
+	if d.hasTL1 {
+		w1, err1 := dirty.(verifTL1).WriteTL1General(nil)
+		w2, err2 := fresh.(verifTL1).WriteTL1General(nil)
+		verifAssert((err1 == nil) == (err2 == nil), "same-tl1-writability")
+		if err1 == nil && err2 == nil {
+			verifAssert(verifBytesEq(w1, w2), "same-tl1")
+		}
+	}
+}
+
 type verifResetter interface{ Reset() }
 
 func verifH_C09reset(d *verifDesc) {
@@ -393,7 +446,7 @@ func verifH_C17(d *verifDesc) {
 var verifSelJ = -1
 
 func init() {
-	verifResetHooks = append(verifResetHooks, func() { verifSelJ, verifNumCount = -1, 0 })
+	verifResetHooks = append(verifResetHooks, func() { verifSelJ, verifNumCount, verifFull = -1, 0, false })
 }
 
 func verifSel() int {
@@ -404,6 +457,49 @@ func verifSel() int {
 }
 
 var verifNumCount int
+
+// full mode: a single, fully populated value (every optional part present, one element per collection) — used as the
+// "dirty" object of the reuse harnesses without multiplying paths
+var verifFull bool
+
+func verifBoolJ() bool {
+	if verifFull {
+		return true
+	}
+	return verifBool()
+}
+
+func verifLenJ(max int) int {
+	if verifFull {
+		if max > 1 {
+			return 1
+		}
+		return max
+	}
+	return verifLen(max)
+}
+
+func verifChoiceJ(n int, d int, recMask int) int {
+	if verifFull {
+		for k := n - 1; k > 0; k-- {
+			if recMask&(1<<uint(k)) == 0 || d > 0 {
+				return k
+			}
+		}
+		return 0
+	}
+	return verifChoice(n)
+}
+
+func verifFullObj(d *verifDesc) interface{} {
+	verifFull = true
+	x := d.anyObjJ(verifParam("D", 1))
+	verifFull = false
+	if d.hasRepair {
+		d.repair(x)
+	}
+	return x
+}
 
 // verifNumJ: integer leaf from a small pool rotated by the per-path selector (width w bits, negative w = signed)
 func verifNumJ(w int) uint64 {
@@ -472,6 +568,12 @@ func verifInf(s int) float64 {
 // verifMaskJ: a field-mask value: any subset of the bits the schema uses (one path per subset), plus optionally one unused bit
 func verifMaskJ(bits []int) uint32 {
 	var m uint32
+	if verifFull {
+		for _, b := range bits {
+			m |= 1 << uint(b)
+		}
+		return m
+	}
 	for _, b := range bits {
 		if verifChoice(2) == 1 { // verifChoice forks (a verifBool would be if-converted into a symbolic mask)
 			m |= 1 << uint(b)
@@ -728,4 +830,169 @@ func verifValidJSON(b []byte) bool {
 	}
 	p.ws()
 	return p.i == len(b)
+}
+
+
+// ---- C43: accessors ----
+
+// verifCloneVia copies src into dst through the TL2 (or TL1) encoding; private presence state travels with the encoding.
+func verifCloneVia(d *verifDesc, src, dst interface{}) {
+	if d.hasTL2 {
+		w := src.(verifTL2).WriteTL2(nil, nil)
+		_, err := dst.(verifTL2).ReadTL2(w, nil)
+		verifAssume(err == nil)
+		return
+	}
+	w, err := src.(verifTL1).WriteTL1General(nil)
+	verifAssume(err == nil)
+	_, err = dst.(verifTL1).ReadTL1(w)
+	verifAssume(err == nil)
+}
+
+// after Set/Clear: the field is present/absent in every encoding (observed by decoding into a fresh object)
+func verifAccessorCheck(d *verifDesc, o interface{}, present bool, isSet func(interface{}) bool) {
+	if d.hasTL1 {
+		w, err := o.(verifTL1).WriteTL1General(nil)
+		if err == nil {
+			o2 := d.newObj()
+			_, err = o2.(verifTL1).ReadTL1(w)
+			verifAssert(err == nil, "tl1-decodes")
+			if err == nil {
+				verifAssert(isSet(o2) == present, "tl1-presence-follows-accessor")
+			}
+		}
+	}
+	if d.hasTL2 {
+		w := o.(verifTL2).WriteTL2(nil, nil)
+		o2 := d.newObj()
+		_, err := o2.(verifTL2).ReadTL2(w, nil)
+		verifAssert(err == nil, "tl2-decodes")
+		if err == nil {
+			verifAssert(isSet(o2) == present, "tl2-presence-follows-accessor")
+		}
+	}
+}
+
+// frame condition: two objects that differ at most in field X are compared with X cleared on both
+func verifAccessorFrame(d *verifDesc, a, b interface{}) {
+	if d.hasTL2 {
+		verifAssert(verifBytesEq(a.(verifTL2).WriteTL2(nil, nil), b.(verifTL2).WriteTL2(nil, nil)), "frame-tl2-unchanged-except-field")
+	}
+	if d.hasTL1 {
+		w1, e1 := a.(verifTL1).WriteTL1General(nil)
+		w2, e2 := b.(verifTL1).WriteTL1General(nil)
+		verifAssert((e1 == nil) == (e2 == nil), "frame-tl1-writability-unchanged")
+		if e1 == nil && e2 == nil {
+			verifAssert(verifBytesEq(w1, w2), "frame-tl1-unchanged-except-field")
+		}
+	}
+}
+
+// ---- C18: random filling with an arbitrary Rand ----
+
+type verifRandSrc struct {
+	rec    []uint64
+	pos    int
+	replay bool
+}
+
+func (r *verifRandSrc) next() uint64 {
+	if r.replay {
+		v := r.rec[r.pos] // running past the recorded draws = nondeterministic consumption -> index panic
+		r.pos++
+		return v
+	}
+	v := verifU64()
+	if low := verifParam("rlow", 99); low < 32 {
+		verifAssume(v%32 <= uint64(low)) // keeps RandomString short (its length is draw % 32 and cannot be clamped by SizeHandler)
+	}
+	r.rec = append(r.rec, v)
+	return v
+}
+func (r *verifRandSrc) Uint32() uint32 { return uint32(r.next()) }
+func (r *verifRandSrc) Int31() int32   { return int32(r.next() & 0x7fffffff) }
+func (r *verifRandSrc) Int63() int64   { return int64(r.next() & 0x7fffffffffffffff) }
+func (r *verifRandSrc) NormFloat64() float64 {
+	b := r.next()
+	verifAssume((b>>52)&0x7ff != 0x7ff) // finite, as math/rand's NormFloat64 guarantees
+	return verifF64frombits(b)
+}
+
+func verifH_C18(d *verifDesc) {
+	L := uint32(verifParam("L", 2))
+	ctx := basictl.RandgeneratorContext{SizeHandler: func(x uint32) uint32 { return x % (L + 1) }}
+	src := &verifRandSrc{}
+	v := d.newObj()
+	d.fillRandom(v, basictl.NewRandGeneratorWithContext(src, ctx))
+	verifCover("filled")
+	var w1 []byte
+	var e1 error
+	if d.hasTL1 {
+		w1, e1 = v.(verifTL1).WriteTL1General(nil)
+		verifAssert(e1 == nil, "tl1-writer-accepts-random-value")
+		if e1 == nil {
+			v2 := d.newObj().(verifTL1)
+			rest, err := v2.ReadTL1(w1)
+			verifAssert(err == nil && len(rest) == 0, "tl1-random-value-reads-back")
+		}
+	}
+	var t1 []byte
+	if d.hasTL2 {
+		t1 = v.(verifTL2).WriteTL2(nil, nil) // must not panic
+		v2 := d.newObj().(verifTL2)
+		rest, err := v2.ReadTL2(t1, nil)
+		verifAssert(err == nil && len(rest) == 0, "tl2-random-value-reads-back")
+		if err == nil {
+			verifAssert(verifBytesEq(v2.WriteTL2(nil, nil), t1), "tl2-random-value-rewrites-identically")
+		}
+	}
+	// same output sequence of the source => same value, consuming exactly the same number of draws
+	src2 := &verifRandSrc{rec: src.rec, replay: true}
+	u := d.newObj()
+	d.fillRandom(u, basictl.NewRandGeneratorWithContext(src2, ctx))
+	verifAssert(src2.pos == len(src.rec), "same-number-of-draws")
+	if d.hasTL1 && e1 == nil {
+		w2, e2 := u.(verifTL1).WriteTL1General(nil)
+		verifAssert(e2 == nil && verifBytesEq(w1, w2), "same-seed-same-tl1")
+	}
+	if d.hasTL2 {
+		verifAssert(verifBytesEq(u.(verifTL2).WriteTL2(nil, nil), t1), "same-seed-same-tl2")
+	}
+}
+
+// ---- C09 with JSON as the second decode ----
+
+func verifH_C09j(d *verifDesc) {
+	dirty := verifFullObj(d)
+	src := d.anyObjJ(verifParam("D", 1))
+	if d.hasRepair {
+		d.repair(src)
+	}
+	j, err := verifWriteJSON(src.(verifJSON))
+	if err != nil {
+		return
+	}
+	e1 := verifReadJSON(dirty.(verifJSON), j)
+	fresh := d.newObj()
+	e2 := verifReadJSON(fresh.(verifJSON), j)
+	verifAssert((e1 == nil) == (e2 == nil), "json-same-acceptance")
+	if e1 != nil || e2 != nil {
+		verifCover("reject")
+		return
+	}
+	verifCover("accept")
+	j1, _ := verifWriteJSON(dirty.(verifJSON))
+	j2, _ := verifWriteJSON(fresh.(verifJSON))
+	verifAssert(verifBytesEq(j1, j2), "json-reuse-same-json")
+	if d.hasTL1 {
+		w1, x1 := dirty.(verifTL1).WriteTL1General(nil)
+		w2, x2 := fresh.(verifTL1).WriteTL1General(nil)
+		verifAssert((x1 == nil) == (x2 == nil), "json-reuse-same-tl1-writability")
+		if x1 == nil && x2 == nil {
+			verifAssert(verifBytesEq(w1, w2), "json-reuse-same-tl1")
+		}
+	}
+	if d.hasTL2 {
+		verifAssert(verifBytesEq(dirty.(verifTL2).WriteTL2(nil, nil), fresh.(verifTL2).WriteTL2(nil, nil)), "json-reuse-same-tl2")
+	}
 }
